@@ -569,9 +569,10 @@ static int run_c14_long(Prng &r, uint64_t pair_index) {
   for (size_t j = 0; j < C.size(); j++) pr.run.digests.push_back(pc.run.digests[start[ic] + j]);
   for (size_t i = 0; i < AB.size(); i++) g_obs.add("ans:long." + std::to_string(i), pr.run.digests[i]);
   begin("var", "long-history");
-  arm_watchdog(120.0);
   ClientState cs;
   for (int n = 1; n <= reps; n++) {
+    // heartbeat: the supervisor's hang detector is on wall-clock silence, and the CPU-time budget of a step is per segment
+    if ((n & 2047) == 0) begin("var", "long-history");
     const std::vector<Call> &Q = (n == 3 || n == 259 || n == 65795) ? A : n == 65536 ? C : B;
     size_t base = (&Q == &A) ? 0 : (&Q == &B) ? A.size() : A.size() + B.size();
     for (size_t i = 0; i < Q.size(); i++) {
